@@ -212,6 +212,7 @@ SerVariant(p, i, v, k) ==
               ELSE JObj(<<E("t", JStr(n)), E("c", c)>>)
          [] p.repr = "int" ->
               IF v.shape = "unit" \/ NewtypeSkipped(v) THEN JObj(<<E("t", JStr(n))>>)
+              ELSE IF v.shape = "newtype" /\ TI(v.fields[1].ty).isopt THEN SerErr    \* serde: "tagged newtype variant containing an optional"
               ELSE IF c.k = "obj" THEN JObj(<<E("t", JStr(n))>> \o c.v)
               ELSE IF c.k = "str" /\ v.shape = "newtype" /\ TI(v.fields[1].ty).unitvar[ValIdx(v.fields[1], k)]
                    THEN JObj(<<E("t", JStr(n)), E(c.v, JNull)>>)               \* a unit variant inside a tagged map
